@@ -56,6 +56,21 @@ def s_scalars():
                 od=opt("od", lambda: S.int("od")))
 
 
+def b_opt_small():
+    from typing import List, Optional
+
+    p = _ap()
+    p.add_argument("--a", type=int, default=1)
+    p.add_argument("--d", type=Optional[int], default=None)
+    p.add_argument("--od", type=Optional[int], default=5)
+    p.add_argument("--tags", type=List[str], default=["base"])
+    return p
+
+
+def s_opt_small():
+    return dict(a=S.int("a"), d=opt("d", lambda: S.int("d")), od=opt("od", lambda: S.int("od")))
+
+
 def b_unions():
     from typing import Optional, Union
 
@@ -503,6 +518,7 @@ def s_class_group():
 
 SHAPES = [
     Shape("scalars", b_scalars, s_scalars),
+    Shape("opt_small", b_opt_small, s_opt_small, tier="thorough"),
     Shape("unions", b_unions, s_unions),
     Shape("lists", b_lists, s_lists),
     Shape("dicts", b_dicts, s_dicts),
